@@ -1,5 +1,5 @@
 (** C09 — listing and bucket ids are never reused. *)
-From FM Require Import Ids.
+From FM Require Import Ids Reentrant.
 
 (** [creates_l_b m id] / [creates_b_b m id]: message [m] asks for the creation of listing /
     bucket [id] — through the native message, the CW20 hook or the CW721 hook (three paths
@@ -46,6 +46,14 @@ Theorem C09_used_forever : forall ops w,
   incl (b_used (market w)) (b_used (market (run w ops))).
 Proof. exact run_used_mono. Qed.
 Print Assumptions C09_used_forever.
+
+(** The same over histories with re-entry (model/Reentry.v). *)
+Theorem C09_used_forever_with_reentry : forall tx w,
+  Inv (market w) ->
+  incl (l_used (market w)) (l_used (market (rrun w tx))) /\
+  incl (b_used (market w)) (b_used (market (rrun w tx))).
+Proof. exact rrun_used_mono. Qed.
+Print Assumptions C09_used_forever_with_reentry.
 
 (** Over every history from an instantiated marketplace, every id is accepted at most once
     for a listing and at most once for a bucket, whoever asks and through whichever path. *)
